@@ -16,6 +16,9 @@ META = dict(
 )
 
 
+SPLIT_DEPTH = 10
+
+
 def tasks(tier):
     sizes = [12, 20, 24] if tier == "quick" else list(range(12, 25))
     n = 2 if tier == "quick" else 3
